@@ -173,7 +173,42 @@ func c09Run(c *fw.Case, env *fw.Env) *fw.Obs {
 			class += "/retry"
 		}
 	}
-	out := runNetOp(w, &p, args)
+	var out *netOutcome
+	if p.AbortAt > 0 {
+		// the server cuts one packfile of the exchange. Over HTTP/2 that is a stream reset, which `wrgl fetch` answers by
+		// starting the exchange again on its own: if the command reports success it is judged like any other; if it
+		// fails (HTTP/1.1: dropped connection) the attempt judged is the one the user runs next
+		w.srv.Arm(p.AbortAt)
+		first := runNetOp(w, &p, args)
+		fired := w.srv.Aborted > 0
+		w.srv.Arm(0)
+		if fired {
+			o.Ev("exchanges_with_a_packfile_cut_by_the_server", 1)
+			if p.H2 {
+				o.Ev("h2_stream_resets", 1)
+			}
+		}
+		if first.panicText != "" {
+			o.Violate("panic/"+class+"/transport-error", "%v: %s", args, first.panicText)
+			return o
+		}
+		if first.err != nil {
+			o.Ev("first_attempts_interrupted", 1)
+			class += "/retry"
+		} else {
+			out = first
+			if fired {
+				o.Ev("commands_that_succeeded_over_a_cut_packfile", 1)
+				class += "/survived-reset"
+			}
+		}
+	}
+	if p.H2 {
+		o.Ev("exchanges_over_h2", 1)
+	}
+	if out == nil {
+		out = runNetOp(w, &p, args)
+	}
 	o.Ev("oracle_evaluations", 1)
 	o.Ev("exchanges_"+p.Op, 1)
 	var rel []string
@@ -202,7 +237,7 @@ func c09Run(c *fw.Case, env *fw.Env) *fw.Obs {
 		return o
 	}
 	// an exchange in which every update is acceptable must not fail
-	acceptable := p.FailAt == 0 && p.ShallowLocal == 0
+	acceptable := p.FailAt == 0 && p.ShallowLocal == 0 && !strings.HasSuffix(class, "/survived-reset")
 	for i, pl := range w.plans {
 		switch pl.Relation {
 		case "new", "equal", "remote-ahead":
@@ -490,6 +525,13 @@ func init() {
 			for i := 0; i < 8; i++ {
 				l.Add("fetch", netParams{Op: "fetch", N: 6 + i%5, BaseRows: 4, Branches: 1 + i%2, Rel: "new", Collide: true, Depth: []int{0, 0, 0, 1}[i%4]}, int64(2530+i))
 			}
+			// fixed: the server cuts the k-th packfile of the exchange, over HTTP/2 (stream reset: fetch and pull restart
+			// the exchange themselves) and over HTTP/1.1 (dropped connection: the command fails and is run again)
+			for i := 0; i < 24; i++ {
+				op := []string{"fetch", "fetch", "push", "pull"}[i%4]
+				l.Add(op, netParams{Op: op, N: 5 + i%3, BaseRows: []int{300, 30}[i/4%2], Branches: 1, Rel: "new", H2: i%8 < 6, AbortAt: 1 + i/8 + i%2,
+					MaxPack: []uint64{1024, 0, 1}[i%3], Depth: []int{0, 0, 0, 1}[i/4%4]}, int64(2600+i))
+			}
 			for i := 0; i < l.N(60, 4000); i++ {
 				p := netParams{N: 3 + rng.Intn(10), BaseRows: []int{4, 30, 300}[rng.Intn(3)], Branches: 1 + rng.Intn(3), MaxPack: packs[rng.Intn(len(packs))], Tags: rng.Intn(3) == 0}
 				switch rng.Intn(10) {
@@ -521,6 +563,12 @@ func init() {
 				if i%12 == 0 && (p.Op == "fetch" || p.Op == "push") {
 					p.Slow = true
 					p.BaseRows = 4
+				}
+				if p.Op != "fetch-pkg" && i%5 == 3 {
+					p.H2 = true
+				}
+				if p.Op != "fetch-pkg" && p.FailAt == 0 && i%7 == 5 {
+					p.AbortAt = 1 + rng.Intn(5)
 				}
 				l.Add(p.Op, p, 0)
 			}
